@@ -338,6 +338,13 @@ func qcMain(args []string) {
 					sum.count("skipped-after-many-mismatches")
 					continue
 				}
+				if sh.dead {
+					nsh, err := sh.renew()
+					if err != nil {
+						fatal(err)
+					}
+					sh = nsh
+				}
 				e, ok := exp[strconv.Itoa(c.id)]
 				if !ok {
 					sum.mismatch(Mismatch{Property: "C02", Case: c.line(), Expected: "driver output", Observed: "none", Detail: "the Lean driver rejected the case"})
@@ -393,8 +400,10 @@ func runQC(sh *shard, c *qcCase, expLine string, sum *sumT) {
 	token := fmt.Sprintf("q%d", c.id)
 	caseLine := c.line()
 	fail := func(prop, expd, obs, detail string) {
-		sum.mismatch(Mismatch{Property: prop, Case: caseLine, Expected: expd, Observed: obs, Detail: detail})
+		timeout := strings.Contains(obs, "within") || strings.Contains(obs, "never entered") || obs == "wait" || strings.Contains(obs, "routers on node") || strings.Contains(obs, "router still")
+		sh.caseFail(Mismatch{Property: prop, Case: caseLine, Expected: expd, Observed: obs, Detail: detail}, timeout)
 	}
+	defer sh.caseEnd(sum)
 	expOut, expLog := "", ""
 	for _, f := range strings.Fields(expLine) {
 		if strings.HasPrefix(f, "out=") {
